@@ -66,6 +66,12 @@ type Unit struct {
 	reach   []reachCheck
 	axiomsDone bool
 	finalActive map[string]bool
+	shapes  []shapeRec
+}
+
+type shapeRec struct {
+	line     int
+	len, cap Term
 }
 
 type reachCheck struct {
@@ -113,6 +119,7 @@ type loopInfo struct {
 	blocks map[*ssa.BasicBlock]bool
 	backs  []*ssa.BasicBlock
 	id     int
+	ord    int // ordinal of the loop within its function (source order of headers)
 	cands  []*Candidate
 }
 
@@ -186,6 +193,11 @@ func (u *Unit) oblige(fr *Frame, kind string, pos token.Pos, text string, pc, co
 	}
 	o := &Obligation{Name: name, Kind: kind, Func: fnName, Text: text, Pos: posString(u.eng.prog, pos), Prefix: u.c.Len(), Goal: Imp(pc, cond)}
 	u.obls = append(u.obls, o)
+	switch kind {
+	case "index", "slice", "nil-deref", "type-assert", "nil-map-write", "div-zero", "make-len", "pre", "unreachable-panic":
+		// execution continues past this point only if the check passed
+		u.c.Assume(Imp(pc, cond))
+	}
 	return o
 }
 
@@ -233,6 +245,15 @@ func findLoops(fn *ssa.Function) map[*ssa.BasicBlock]*loopInfo {
 				}
 			}
 		}
+	}
+	// ordinals by header block index (source order)
+	var hs []*ssa.BasicBlock
+	for h := range loops {
+		hs = append(hs, h)
+	}
+	sort.Slice(hs, func(i, j int) bool { return hs[i].Index < hs[j].Index })
+	for i, h := range hs {
+		loops[h].ord = i + 1
 	}
 	return loops
 }
@@ -578,7 +599,7 @@ func (fr *Frame) cloneForDiscovery() *Frame {
 	}
 	// fresh loopInfo copies so candidate lists/ids of the real run are not disturbed
 	for h, li := range fr.loops {
-		n.loops[h] = &loopInfo{header: li.header, blocks: li.blocks, backs: li.backs, id: li.id, cands: []*Candidate{}}
+		n.loops[h] = &loopInfo{header: li.header, blocks: li.blocks, backs: li.backs, id: li.id, ord: li.ord, cands: []*Candidate{}}
 	}
 	return n
 }
